@@ -6,6 +6,7 @@ import (
 	"fmt"
 	"sort"
 	"strings"
+	"time"
 
 	"verifengine/ex"
 	"verifengine/fixture"
@@ -22,9 +23,10 @@ func init() {
 		Rule: "three program spaces, restricted to programs whose REFERENCE rendering go/types accepts: (a) the C01 expression space (single-operator over 78 atoms in `_ = e` / `x := e`, atoms and single-operator expressions over 18 atoms in ~100 use contexts, depth 2 reduced); " +
 			"(b) the C10 body space (every statement form nested to depth 2, 1.2M bodies; only those without any go/types error); (c) a statement corpus generated from templates (6 init shapes x 5 conditions x 9 header forms, 15 range forms, select, labels, closures, multi-value forms, parameter shadowing an import, conversions, precedence) converted from Go text to IR. " +
 			"Oracle: the builder reports no error, the emitted package type-checks, and the typed canonical form of func f (identifiers replaced by the identity of the object they resolve to, parentheses/import names/positions dropped) equals that of the reference. non-trivial = valid reference with >=1 operator or compound statement; distinct = reference text",
-		Assumptions: []string{"go/types 1.23.5 decides validity of the reference", "the reference text is rendered from the same IR the driver builds from; the driver's canonical operation sequences are transcribed from the repository's tests"},
-		Run:         run,
-		Replay:      replay,
+		Assumptions:    []string{"go/types 1.23.5 decides validity of the reference", "the reference text is rendered from the same IR the driver builds from; the driver's canonical operation sequences are transcribed from the repository's tests"},
+		ThoroughBudget: 60 * time.Minute,
+		Run:            run,
+		Replay:         replay,
 	})
 }
 
